@@ -112,21 +112,25 @@ ValQ(s, x, v) == IF v = 0 THEN 0
 
 \* outstanding interest of loan l at time t, in units of its interest symbol (MarginLoan.calculate_interest,
 \* then ValueMap.truncate): max(principal * pct/100 * elapsed/period [converted], min) truncated
+\* raw interest numerator / denominator: proportional to the elapsed time, or flat when the conditions have no period
+IntN(l, t) == IF l.c.period = 0 THEN l.amount * l.c.pctN ELSE l.amount * l.c.pctN * (t - l.at)
+IntD(l)    == IF l.c.period = 0 THEN l.c.pctD ELSE l.c.pctD * l.c.period
 InterestOf(s, l, t) ==
   LET c   == l.c
-      el  == t - l.at
-      n   == l.amount * c.pctN * el
-      d   == c.pctD * c.period
+      n   == IntN(l, t)
+      d   == IntD(l)
       \* ValueMap.truncate: down to the precision configured for the interest SYMBOL, which may be coarser than the
       \* precision of the pairs it trades in (C.istep units per step; set_pair_info overrides the pair's precision)
       Tr(v) == (v \div C.istep[c.isym]) * C.istep[c.isym]
   IN IF c.isym = l.sym
      THEN Tr(Max2(n \div d, c.minInt))
+     ELSE IF n = 0 THEN Tr(c.minInt)                 \* Prices.convert(0) needs no price
      ELSE \* converted to the interest symbol (only the normalising symbol is supported as a foreign interest symbol)
           LET p == PriceIn(s, l.sym) IN
           Tr(Max2((n * p) \div (d * C.scale[l.sym] * C.pm), c.minInt))
-\* (a foreign interest symbol is only supported for symbols priced through a direct pair)
-InterestConvertible(s, l) == l.c.isym = l.sym \/ (l.c.isym = Q /\ DirectPriced(s, l.sym))
+\* (a foreign interest symbol is only supported for symbols priced through a direct pair; nothing to convert = no price needed)
+InterestConvertible(s, l) ==
+  l.c.isym = l.sym \/ IntN(l, s.clock) = 0 \/ (l.c.isym = Q /\ DirectPriced(s, l.sym))
 
 \* CheckMarginLevel on candidate maps (nb, nbor).  Result: "ok" | "nebal" | "noprice" | "zero"
 MarginCheck(s, nb, nbor) ==
@@ -178,6 +182,10 @@ CreateLoanI(s, sym, amount) ==
            u   == Update(s, Only(sym, amount), D0, Only(sym, amount)) IN
        IF pre = "noprice" THEN [ok |-> FALSE, err |-> "noprice", s |-> s]
        ELSE IF pre = "zero" THEN [ok |-> FALSE, err |-> "nebal", s |-> s]
+       \* a loan whose interest cannot be valued (flat interest in another symbol, no price yet) is refused BEFORE the
+       \* account is touched: LoanManager.create_loan builds the loan's description first
+       ELSE IF ~InterestConvertible(s, [sym |-> sym, amount |-> amount, at |-> s.clock, c |-> s.cond[sym]])
+            THEN [ok |-> FALSE, err |-> "noprice", s |-> s]
        ELSE IF ~u.ok THEN u
        ELSE [ok |-> TRUE, err |-> "",
              s |-> [u.s EXCEPT !.loans = Append(@, [sym |-> sym, amount |-> amount, at |-> s.clock, open |-> TRUE,
